@@ -421,6 +421,37 @@ package mobius
 //@   before call (*hotline.ClientConn).NewReply assert same(arg2, userFields)
 //@   before any call (*hotline.ClientConn).NewErrReply assert !priv(cc, 16)
 
+// C18, at the protocol level: a post / delete / read request acts on the path and article ID the
+// client sent (fields 325 and 326), a post records the requester's name and the submitted title
+// and body, and a read reply carries the stored article member by member.
+//@ func HandlePostNewsArt(cc *hotline.ClientConn, t *hotline.Transaction) (res []hotline.Transaction)
+//@   property C18
+//@   before call (*hotline.Field).DecodeNewsPath assert same(arg0.Data, reqdata(1, 69))
+//@   before call (*hotline.Field).DecodeInt assert same(arg0.Data, reqdata(1, 70))
+//@   before call (hotline.ThreadedNewsMgr).PostArticle assert same(arg1, callres("(*hotline.Field).DecodeNewsPath", 0)) && arg2 == callres("(*hotline.Field).DecodeInt", 0) % 4294967296
+//@   before call (hotline.ThreadedNewsMgr).PostArticle assert bytes(arg3.Title) == bytes(reqdata(1, 72)) && bytes(arg3.Data) == bytes(reqdata(1, 77)) && bytes(arg3.Poster) == bytes(cc.UserName)
+//@   before call (hotline.ThreadedNewsMgr).PostArticle assert callres("(*hotline.Field).DecodeNewsPath", 1) == nil && callres("(*hotline.Field).DecodeInt", 1) == nil
+
+//@ func HandleDelNewsArt(cc *hotline.ClientConn, t *hotline.Transaction) (res []hotline.Transaction)
+//@   property C18
+//@   before call (*hotline.Field).DecodeNewsPath assert same(arg0.Data, reqdata(1, 69))
+//@   before call (*hotline.Field).DecodeInt assert same(arg0.Data, reqdata(1, 70))
+//@   before call (hotline.ThreadedNewsMgr).DeleteArticle assert same(arg1, callres("(*hotline.Field).DecodeNewsPath", 0)) && arg2 == callres("(*hotline.Field).DecodeInt", 0) % 4294967296
+//@   before call (hotline.ThreadedNewsMgr).DeleteArticle assert callres("(*hotline.Field).DecodeNewsPath", 1) == nil && callres("(*hotline.Field).DecodeInt", 1) == nil
+
+//@ func HandleGetNewsArtData(cc *hotline.ClientConn, t *hotline.Transaction) (res []hotline.Transaction)
+//@   property C18
+//@   let art := callres("(hotline.ThreadedNewsMgr).GetArticle")
+//@   before call (hotline.ThreadedNewsMgr).GetArticle assert same(arg1, callres("(*hotline.Field).DecodeNewsPath", 0)) && arg2 == callres("(*hotline.Field).DecodeInt", 0) % 4294967296
+//@   before call hotline.NewField#1 assert arg0[0] == 1 && arg0[1] == 72 && bytes(arg1) == bytes(art.Title)
+//@   before call hotline.NewField#2 assert arg0[0] == 1 && arg0[1] == 73 && bytes(arg1) == bytes(art.Poster)
+//@   before call hotline.NewField#3 assert arg0[0] == 1 && arg0[1] == 74 && ptsto(arg1, art.Date) && len(arg1) == 8
+//@   before call hotline.NewField#4 assert arg0[0] == 1 && arg0[1] == 75 && ptsto(arg1, art.PrevArt) && len(arg1) == 4
+//@   before call hotline.NewField#5 assert arg0[0] == 1 && arg0[1] == 76 && ptsto(arg1, art.NextArt) && len(arg1) == 4
+//@   before call hotline.NewField#6 assert arg0[0] == 1 && arg0[1] == 79 && ptsto(arg1, art.ParentArt) && len(arg1) == 4
+//@   before call hotline.NewField#7 assert arg0[0] == 1 && arg0[1] == 80 && ptsto(arg1, art.FirstChildArt) && len(arg1) == 4
+//@   before call hotline.NewField#9 assert arg0[0] == 1 && arg0[1] == 77 && bytes(arg1) == bytes(art.Data)
+
 // ---------------------------------------------------------------------------------
 // C18: creating a category or bundle never replaces an existing item (which would discard its
 // articles): when the name is taken at that path the call fails and the item is untouched; when it
